@@ -681,3 +681,7 @@ func (b *BMC) handleRAKP3(p []byte, ev *Event) []byte {
 	}
 	return SessionlessPacket(PayloadRAKP4, rsp)
 }
+
+// SetSuites replaces the cipher suites the BMC advertises and accepts from now on (a firmware setting changed between
+// two session establishments).
+func (b *BMC) SetSuites(s []Suite) { b.cfg.Suites = s }
